@@ -33,7 +33,6 @@ WantAll == {"C01", "C02", "C03", "C04", "C05", "C06", "C07", "C08", "C09", "C10"
 
 ---------------------------------------------------------------------------
 \* binding to the heap: what an event saw must be what earlier events left
-LeafMap(L) == [r \in {x.ref : x \in L} |-> CHOOSE x \in L : x.ref = r]
 BindFails(val) == {"bind.heap[" \o ToString(x.ref) \o "]" : x \in {y \in Leaves(val) : y.ref \in DOMAIN heap /\ heap[y.ref] # y}}
 \* one object, one projection
 AliasFails(val) == LET L == Leaves(val) IN IF \E x, y \in L : x.ref = y.ref /\ x # y THEN {"bind.alias"} ELSE {}
